@@ -12,6 +12,7 @@ import FBV.Drv.ES
 import FBV.Drv.AD
 import FBV.Drv.RF
 import FBV.Drv.AAD
+import FBV.Drv.PL
 open FBV FBV.Wire
 
 structure Tally where
@@ -56,6 +57,19 @@ def checkLine (oc : Bool) (line : String) : Option (List String × String) :=
     (FBV.DrvAAD.checkARF pre impl).map fun (v, nt) => (v, if nt then "arf_nontrivial" else "arf_trivial")
   | [("ACO" :: pre), impl] =>
     (FBV.DrvAAD.checkACO pre impl).map fun (v, nt) => (v, if nt then "aco_nontrivial" else "aco_trivial")
+  | [["SZ", n, sz, al]] =>
+    -- C18: a FixedBuf stores its SIZE bytes and two usize indices inline, nothing else
+    match n.toNat?, sz.toNat?, al.toNat? with
+    | some n, some sz, some al => some ((if sz == (n + 16 + 7) / 8 * 8 && al == 8 then [] else ["UNSAT C18"]), "sz_nontrivial")
+    | _, _, _ => none
+  | [["ST", sz, len, allocs]] =>
+    match sz.toNat?, len.toNat?, allocs.toNat? with
+    | some sz, some len, some a => some ((if sz == 32 && len == 0 && a == 0 then [] else ["UNSAT C18"]), "sz_nontrivial")
+    | _, _, _ => none
+  | [("PL" :: pre), impl] =>
+    (FBV.DrvPL.check false pre impl).map fun (v, nt) => (v, if nt then "pl_nontrivial" else "pl_trivial")
+  | [("APL" :: pre), impl] =>
+    (FBV.DrvPL.check true pre impl).map fun (v, nt) => (v, if nt then "apl_nontrivial" else "apl_trivial")
   | [("T0" :: pre), post] => (FBV.DrvT1.checkT0 pre post).map fun v => (v, "t0")
   | _ => none
 
